@@ -174,12 +174,90 @@ class Ev:
         return self.e(node, env, in_old)
 
 
+def build_pyobj(d):
+    """The arbitrary Python object an Engine-P counter-model describes (pyvc/dtypes.py ghosts)."""
+    t = lambda k: str(d.get(k)) == "True"
+    n = lambda k: int(str(d.get(k, "0")).replace(" ", "") or 0)
+    if t("py_isint"):
+        if not t("py_exactint"):
+            v = n("py_ival")
+            return bool(v) if v in (0, 1) else type("IntSubclass", (int,), {})(v)
+        return n("py_ival")
+    if t("py_isbytes"):
+        return b"x" * max(0, min(n("py_blen"), 64))
+    ns = {}
+    if t("py_hasindex"):
+        ns["__index__"] = lambda self, v=n("py_index"): v
+    if t("py_hasint"):
+        ns["__int__"] = lambda self, v=n("py_intconv"): v
+    if not t("py_defaultcmp"):
+        ns["__lt__"] = lambda self, other: id(self) < id(other)
+    return type("Obj", (), ns)()
+
+
+def replay_dtype(job, con):
+    """Converters of _datatypes.py: build the object, call the real converter, evaluate the clauses."""
+    import BTrees._datatypes as D
+    d = job["model"].get("$any", {}).get("item", {})
+    item = build_pyobj(d)
+    dt = getattr(D, con.cls[3:])()
+    outcome, result, exc_cls = "return", None, None
+    try:
+        result = dt(item)
+    except Exception as e:
+        outcome, exc_cls = "raise", type(e).__name__
+    isint = isinstance(item, int)
+    hasindex = (not isint) and hasattr(item, "__index__")
+    fns = {"py_isint": lambda x: isinstance(x, int), "py_ival": lambda x: int(x),
+           "py_hasindex": lambda x: not isinstance(x, int) and hasattr(x, "__index__"),
+           "py_index": lambda x: x.__index__(), "py_hasint": lambda x: not isinstance(x, int) and hasattr(x, "__int__"),
+           "py_intconv": lambda x: x.__int__(), "py_isbytes": lambda x: isinstance(x, bytes), "py_blen": lambda x: len(x),
+           "py_defaultcmp": lambda x: isinstance(x, D._HasDefaultComparison),
+           "py_numeric": lambda x: isinstance(x, int) or hasattr(x, "__index__"),
+           "py_numval": lambda x: int.__index__(x) if isinstance(x, int) else x.__index__(),
+           "implies": lambda a, b: (not a) or b}
+    env = dict(fns, item=item, result=result)
+    if outcome == "raise" and exc_cls not in con.raises:
+        print(json.dumps({"reproduced": True, "outcome": "real code raised %s, contract allows %s" % (exc_cls, sorted(con.raises)),
+                          "call": "BTrees._datatypes.%s()(%s)" % (con.cls[3:], describe(item))}))
+        return
+    clauses = con.ensures if outcome == "return" else con.raises[exc_cls]
+    failed = []
+    for nm, txt in clauses.items():
+        try:
+            ok = eval(txt, {"__builtins__": {}}, env)
+        except Exception as e:
+            failed.append("%s (evaluation raised %s)" % (nm, type(e).__name__))
+            continue
+        if not ok or (nm == "representable" and type(result) is not int and con.returns == "int"):
+            failed.append(nm)
+    if outcome == "return" and con.returns == "int" and type(result) is not int:
+        failed.append("returns-kind (a %s, not a plain int)" % type(result).__name__)
+    print(json.dumps({"reproduced": bool(failed),
+                      "outcome": ("contract clauses violated by the real code: %s" % failed) if failed else
+                      "real code satisfied its contract on this input",
+                      "call": "BTrees._datatypes.%s()(%s)" % (con.cls[3:], describe(item)),
+                      "returned": repr(result)[:200] if outcome == "return" else "raised " + str(exc_cls)}))
+
+
+def describe(item):
+    if isinstance(item, (int, bytes)):
+        return repr(item)
+    parts = []
+    for a in ("__index__", "__int__"):
+        if hasattr(item, a):
+            parts.append("%s() -> %r" % (a, getattr(item, a)()))
+    return "<object with %s>" % (", ".join(parts) or "no number protocol")
+
+
 def main():
     job = json.loads(sys.stdin.read())
     sys.path.insert(0, ".")
     from pyvc.run import all_contracts
     import BTrees._base as B
     con = all_contracts()[job["function"]]
+    if isinstance(con.cls, str) and con.cls.startswith("dt:"):
+        return replay_dtype(job, con)
     # Only receivers this replayer can rebuild faithfully from a counter-model are replayed: leaves
     # (Bucket/Set), Length, plain functions.  For interior nodes (views "f#struct": children are
     # abstracted by summaries in the model), lemma programs, cursors and state tuples there is no
